@@ -145,6 +145,8 @@ def expressions(S: str, L: str) -> Dict[str, str]:
         "len_two_args": "len(%s, %s) > 1" % (S, S),
         "len_no_args": "len() > 1",
         "len_kwarg": "len(obj=%s) > 1" % S,
+        "two_len_arity_same_line": "len(%s, 1) >= 1 and len(%s, 2) >= 1" % (S, L),
+        "two_unknown_calls_same_line": "undefined_function(%s) and undefined_function(%s)" % (S, L),
     }
 
 
@@ -631,7 +633,18 @@ class Something(DBC):
 
 def r_cprim(i: int, r: Dict[str, Any]) -> str:
     E = expressions("self", "self")[r["expr"]]
-    return '@invariant(lambda self: %s, "Constraint %d holds.")\nclass Cp_%d(%s, DBC):\n    pass\n' % (E, i, i, r["prim"])
+    text = ""
+    extra = r.get("extra", "none")
+    if extra == "second_contradicting":
+        text += '@invariant(lambda self: len(self) < 2, "Constraint %d is short.")\n' % i
+    elif extra == "second_compatible":
+        text += '@invariant(lambda self: len(self) < 200, "Constraint %d is not too long.")\n' % i
+    text += '@invariant(lambda self: %s, "Constraint %d holds.")\nclass Cp_%d(%s, DBC):\n    pass\n' % (E, i, i, r["prim"])
+    if extra == "child_contradicting":
+        text += '\n\n@invariant(lambda self: len(self) < 2, "Child %d is short.")\nclass Cp_child_%d(Cp_%d, DBC):\n    pass\n' % (i, i, i)
+    elif extra == "used_as_property":
+        text += "\n\nclass Cp_user_%d(DBC):\n    value: Cp_%d\n\n    def __init__(self, value: Cp_%d) -> None:\n        self.value = value\n" % (i, i, i)
+    return text
 
 
 def r_docref(i: int, r: Dict[str, Any]) -> str:
@@ -1118,6 +1131,18 @@ def _pair_class(name: str, rule: str) -> str:
 
 
 def render_pair_model(rule: str, on: List[str]) -> str:
+    if rule.startswith("same_line_"):
+        good = {"Alpha": "len(self.first) >= 1", "Beta": "len(self.second) >= 1"}
+        bad = {
+            "same_line_len_arity": {"Alpha": "len(self.first, 1) >= 1", "Beta": "len(self.second, 2) >= 1"},
+            "same_line_unknown_call": {"Alpha": "undefined_function(self.first)", "Beta": "undefined_function(self.second)"},
+        }[rule]
+        ops = [bad[site] if site in on else good[site] for site in ("Alpha", "Beta")]
+        cls = (
+            '\n\n@invariant(lambda self: %s and %s, "Both are fine.")\nclass Gamma(DBC):\n    first: str\n    second: str\n\n'
+            "    def __init__(self, first: str, second: str) -> None:\n        self.first = first\n        self.second = second\n" % (ops[0], ops[1])
+        )
+        return "".join([mm.HEADER, PAIR_HEAD, cls, FOOTER])
     parts = [mm.HEADER, PAIR_HEAD]
     for name in ("Alpha", "Beta"):
         parts.append("\n\n" + _pair_class(name, rule if name in on else ""))
